@@ -41,8 +41,12 @@ func probe(args []string) {
 	verbose := os.Getenv("PROBE_VERBOSE") != ""
 	for _, dc := range docs {
 		fmt.Printf("== %s %s\n", dc.name, dc.desc)
+		groups := map[string][]string{}
 		for _, c := range configs {
-			ctx1, err := readInput(dc.doc, c.conf())
+			ctx1, bd, err := readInput(dc.doc, c.conf())
+			if bd != "" {
+				fmt.Printf("  bind diff: %s\n", bd)
+			}
 			if err != nil {
 				fmt.Printf("  %s: input rejected: %v\n", c.name, err)
 				break
@@ -72,15 +76,26 @@ func probe(args []string) {
 				ac = stripFreshInfo(ac)
 			}
 			same := strings.Join(before.canon, "\n") == strings.Join(ac, "\n")
-			fmt.Printf("  %s: objs %d -> %d, canon same=%v pages %d->%d dangling=%v\n", c.name, len(before.tv.nrs), len(after.tv.nrs), same, len(before.pages), len(after.pages), danglingRefs(after.tv, ctx2))
+			msg := fmt.Sprintf("objs %d -> %d, canon same=%v pages %d->%d dangling=%v", len(before.tv.nrs), len(after.tv.nrs), same, len(before.pages), len(after.pages), danglingRefs(after.tv, ctx2))
 			if !same {
-				fmt.Printf("    %s\n", firstDiff(before.canon, ac))
+				d := firstDiff(before.canon, ac)
+				if len(d) > 700 && !verbose {
+					d = d[:700]
+				}
+				msg += "\n    " + d
 			}
+			groups[msg] = append(groups[msg], c.name)
 			if verbose {
 				fmt.Printf("    before: %s\n    after:  %s\n", before.tv.text(nil), after.tv.text(nil))
 				os.WriteFile("/tmp/c19-scratch/probe-out.pdf", out, 0o644)
 				os.WriteFile("/tmp/c19-scratch/probe-in.pdf", dc.doc, 0o644)
 			}
+		}
+		for m, cs := range groups {
+			if strings.Contains(m, "same=true") && !verbose {
+				continue
+			}
+			fmt.Printf("  %v: %s\n", cs, m)
 		}
 	}
 }
